@@ -144,7 +144,7 @@ def rule_mod_r_subtraction(ctx, cfg, prog):
                 ctx.ob('R-CONST', ok, 'modr|%s|%s' % (name, loc_str(c).split(':')[-1]), loc_str(c),
                        '%s: identity difference modulo r: %s' % (name, why), cfg=cfg,
                        sample=dict(config=cfg, function=name, site=loc_str(c)))
-    ctx.floor('mod-r subtractions[%s]' % cfg, n, 5)
+    ctx.floor('mod-r subtractions[%s]' % cfg, n, 3)
 
 
 # ---------------------------------------------------------------- C16
